@@ -12,6 +12,7 @@
     opensrc <kind> <sym> <suid> <sgid> <sticky> <nlink> <c> <f> <k>     -> "<code> <exit status>"
     runfile <c|d> <fmt> <sfx|none> <c> <f> <k> <name> <kind> <sym> <srcmode> <nlink> <destkind> <gfail> <ofail> <nowarn>
                                             -> "A=<action> D=<dest hex|-> M=<mode|-> R=<0|1> X=<exit status>"
+    args <prog> <env> <o1> <o2>             -> decimal (Settings.code of parseArgs; indices as in Gen argsRows)
     status <nowarn> <w|e>...                -> decimal exit status of a run reporting these events
     attrs <d|c> <keep> <nosparse> <nosync> <srcmode> <srcuid> <srcgid> <srcatime ns> <srcmtime ns> <procuid> <destgid>
           <ownerfail> <groupfail> <chunk>...     (chunk = d<n>: an io_write() of n non-zero bytes, z<n>: of n zero bytes)
@@ -166,6 +167,11 @@ def step (_ : Unit) (ws : List String) : Unit × String :=
       | none => ((), "bad-op")
     | some _, some none, some _, some _, some _ => ((), "fatal")
     | _, _, _, _, _ => ((), "bad-op")
+  | ["args", p, e, o1, o2] =>
+    match p.toNat?, e.toNat?, o1.toNat?, o2.toNat? with
+    | some p, some e, some o1, some o2 =>
+      ((), toString (parseArgs (Prog.ofCode p) (envVariant e).1 (envVariant e).2 (Opt.ofCode o1 ++ Opt.ofCode o2)).code)
+    | _, _, _, _ => ((), "bad-op")
   | _ => ((), "bad-op")
 
 def main : IO Unit := runLoop step ()
